@@ -1,6 +1,7 @@
 import M3d.Basic
 import M3d.Model.Surface
 import M3d.Model.Param
+import M3d.Model.ParamExt
 import Std.Data.HashMap
 /-!
 Line-protocol handler for C18.  Core-only.
@@ -32,6 +33,16 @@ Line-protocol handler for C18.  Core-only.
     pack   B b R .. N k (A area M m (6 rationals)*)*  → the packed UVs (exact) or `panic`
     circle P p N n (len x y)*        → `ok` iff the real CircleBoundary/PNormBoundary placement is within 1e-12 of
            the arc-length model `runSums`/`arcParams` (cos/sin/pow from libm: validation only)
+    ext    S MD d L lo H hi T n tris B n (id x y)* A n (id x y)*
+           → `ok` iff the real `ExtendBoundaryUVs` (map `B` before, `A` after, exact rationals of the floats)
+             did what `extend_boundary_*` prove of the model: only ear apexes of the boundary cycle moved
+             (`extend_boundary_moves_only_ears`); every moved apex stayed on its side of the opposite edge, is
+             not closer to it than before and moved by at most `maxDist` (`extend_boundary_ear_moves_away`;
+             the side condition `earCross · originCross > 0` of that theorem is checked on `B` and reported as a
+             generator fault); no triangle changed orientation and the layout is still `uvValid`
+    ext    F MD d ST v T n tris P n (x y z)* B n (x y)*   (hex floats)
+           → the boundary vertices `id x y` after `extendBoundary` at `Float` (faithful model of the loop,
+             bit for bit; validates the model the theorems are about)
     mapfn  E|N Q p WANT w R q U uv-triangle P 3d-triangle → `ok` iff the returned triangle
            contains `p` and `q` is the barycentric interpolation (= `WANT`); exact for `E`,
            within 1e-7 for `N` (float arithmetic: validation)
@@ -537,6 +548,111 @@ def handleCircle (ws : Toks) : Option String := do
       some (if ok then "ok" else "FAIL placement-differs-from-arclength-model")
   | _ => none
 
+/-! ### ext: `ExtendBoundaryUVs` -/
+
+def boundaryFrom (ts : List Tri) (start : Option Nat) : Option (List Nat) :=
+  let starts := (bdyEdgesFind ts).map (·.1)
+  match starts with
+  | [] => none
+  | s :: r =>
+    let st := match start with
+      | some v => v
+      | none => r.foldl min s
+    boundarySeq ts st
+
+def handleExtS (ws : Toks) : Option String := do
+  match ws with
+  | "MD" :: md :: "L" :: lo :: "H" :: hi :: rest =>
+    let md ← parseRat md
+    let lo ← parseRat lo
+    let hi ← parseRat hi
+    let (ts, r) ← takeSoup "T" rest
+    let nv := (vertsAll ts).foldl max 0 + 1
+    let (b, r) ← takeN "B" r 3
+    match r with
+    | ["A", status] => some ("FAIL status=" ++ status)
+    | _ =>
+    let (a, _) ← takeN "A" r 3
+    let bpos ← parseX b (Array.replicate nv ⟨0, 0⟩)
+    let apos ← parseX a (Array.replicate nv ⟨0, 0⟩)
+    let bx := fun (v : Nat) => (bpos[v]?).getD ⟨0, 0⟩
+    let ax := fun (v : Nat) => (apos[v]?).getD ⟨0, 0⟩
+    match boundaryFrom ts none with
+    | none => some "FAIL generator-input-has-no-single-boundary-cycle"
+    | some seq =>
+      let n := seq.length
+      let ears := (List.range n).filter fun i =>
+        let (p0, p1, p2) := earTriple seq i
+        isEarTri ts p0 p1 p2
+      let apexes := earApexes ts seq
+      let tri2 := fun (px : Nat → V2 Rat) (t : Tri) => (⟨px t.1, px t.2.1, px t.2.2⟩ : Tri2 Rat)
+      let preValid := uvValid lo hi (ts.map (tri2 bx))
+      -- frame: nothing but ear apexes moves
+      let moved := (verts ts).filter fun v => ax v != bx v
+      let frame := moved.all fun v => apexes.contains v
+      -- per ear whose neighbours are not apexes themselves (they are, only in a one-triangle mesh)
+      let perEar : List (String × Bool) := ears.flatMap fun i =>
+        let (p0, p1, p2) := earTriple seq i
+        if apexes.contains p0 || apexes.contains p2 then [] else
+        let h := earCross (bx p0) (bx p1) (bx p2)
+        let o := originCross (bx p0) (bx p1) (bx p2)
+        let h' := earCross (bx p0) (ax p1) (bx p2)
+        let e := (bx p2).sub (bx p0)
+        let d2 := dist2 (ax p1) (bx p1)
+        let slack : Rat := 1 - 1 / 1000000000000
+        [(s!"generator-origin-not-on-the-inner-side-at-vertex-{p1}", decide (0 < h * o)),
+         (s!"ear-at-vertex-{p1}-flipped-over-its-opposite-edge", decide (0 < h * h') || ax p1 == bx p1),
+         (s!"ear-at-vertex-{p1}-pushed-towards-its-opposite-edge", decide (absR h * slack ≤ absR h') || !decide (0 < h * h')),
+         (s!"vertex-{p1}-moved-farther-than-maxDist", decide (d2 * slack * slack ≤ md * md)),
+         (s!"vertex-{p1}-moved-although-opposite-edge-degenerate", decide (0 < dot2 e e) || ax p1 == bx p1)]
+      let flips := ts.filter fun t =>
+        let ob := (tri2 bx t).orient
+        let oa := (tri2 ax t).orient
+        !decide (0 < ob * oa)
+      let noFlip := flips.isEmpty
+      let postValid := uvValid lo hi (ts.map (tri2 ax))
+      some (verdict ([("generator-input-layout-invalid", preValid),
+        (s!"a-vertex-that-is-not-an-ear-apex-moved({moved.filter fun v => !apexes.contains v})", frame)] ++ perEar ++
+        [(s!"{flips.length}-triangles-changed-orientation", noFlip || !preValid),
+         ("layout-after-ExtendBoundaryUVs-flipped-or-overlapping", postValid || !preValid)]))
+  | _ => none
+
+partial def parseHexes (ws : Toks) (acc : Array Float) : Option (Array Float) :=
+  match ws with
+  | [] => some acc
+  | a :: r => do
+    let a ← floatOfHex a
+    parseHexes r (acc.push a)
+
+def handleExtF (ws : Toks) : Option String := do
+  match ws with
+  | "MD" :: md :: "ST" :: st :: rest =>
+    let md ← floatOfHex md
+    let st ← st.toNat?
+    let (ts, r) ← takeSoup "T" rest
+    let (p, r) ← takeN "P" r 3
+    let (b, _) ← takeN "B" r 2
+    let pa ← parseHexes p #[]
+    let ba ← parseHexes b #[]
+    let pos := fun (v : Nat) => (⟨pa[3 * v]!, pa[3 * v + 1]!, pa[3 * v + 2]!⟩ : V3 Float)
+    let nv := ba.size / 2
+    let param : AMap (V2 Float) := (List.range nv).map fun v => (v, (⟨ba[2 * v]!, ba[2 * v + 1]!⟩ : V2 Float))
+    match boundaryFrom ts (some st) with
+    | none => some "panic"
+    | some seq =>
+      let res := extendBoundary ts pos seq md param
+      let ids := sortBy (fun a b => decide (a < b)) seq
+      some (" ".intercalate (ids.map fun v =>
+        let q := AMap.value res v
+        s!"{v} {hexOfFloat q.x} {hexOfFloat q.y}"))
+  | _ => none
+
+def handleExt (ws : Toks) : Option String :=
+  match ws with
+  | "S" :: r => handleExtS r
+  | "F" :: r => handleExtF r
+  | _ => none
+
 def handleAll (ws : List String) : Option String :=
   match ws with
   | "grow" :: r => handleGrow r
@@ -550,6 +666,7 @@ def handleAll (ws : List String) : Option String :=
   | "circle" :: r => handleCircle r
   | "hist" :: r => handleHist r
   | "near" :: r => handleNear r
+  | "ext" :: r => handleExt r
   | _ => none
 
 end M3d.Drv.C18
